@@ -291,6 +291,7 @@ pub fn catch<T, F: FnOnce() -> T + std::panic::UnwindSafe>(f: F) -> Result<T, St
 
 pub mod gen;
 pub mod net;
+pub mod refmatch;
 pub mod res;
 
 /// The value of option `names[..]` of a network rule line AS WRITTEN: the text between the first
